@@ -195,7 +195,7 @@ fn cfg_small(rng: &mut Rng, rate: RateKind) -> (usize, usize, usize) {
         _ => Class::Edge,
     };
     let (k, r) = gen::config(rng, class, rate);
-    (k, r, *rng.pick(&[2usize, 4, 30, 64, 66, 130]))
+    (k, r, *rng.pick(&[2usize, 4, 30, 62, 64, 66, 100, 130, 190]))
 }
 
 /// reset arguments that must fail for this rate
